@@ -117,7 +117,8 @@ fn keys_of(g: &AnyG) -> String {
 
 fn entry(g: &AnyG, v: usize) -> String {
     with_g!(g, x => {
-        let marker = if x.v_print(v).map(|s| s.contains("⟦Δ")).unwrap_or(false) { "!" } else { "" };
+        // data presence is read through the hook, so that v_print() is exercised only by the `vprint` operation
+        let marker = if x.verif_persistence(v) != 0 { "!" } else { "" };
         format!("{v}{marker}{}", show_edges(x.kids(v)))
     })
 }
